@@ -378,6 +378,11 @@ def _check_quote_factory(ctx):
     """quote_factory(S) returns f with f(s) = every UTF-8 byte of s kept iff it is in {ord(c) for c in S}, else %XX."""
     fi = ctx.prog.func("util.uri.quote_factory")
     p = params(fi)
+    a_ = fi.node.args
+    mutable = [d for d in list(a_.defaults) + [d for d in a_.kw_defaults if d is not None] if isinstance(d, (ast.Dict, ast.List, ast.Set, ast.Call, ast.DictComp, ast.ListComp))]
+    if not ctx.ob("every quote function depends only on its own safe set (quote_factory keeps no state shared between the functions it returns)", not mutable, fi, mutable[0] if mutable else fi.node,
+                  construct="quote_factory defaults: %s" % (stmt_text(mutable[0]) if mutable else "none mutable"), detail="mutable default argument is shared by the path and the query quoter" if mutable else None):
+        return
     ctx.need(len(p) == 1, "quote_factory signature changed")
     inner = [f for f in ctx.prog.funcs.values() if f.parent is fi]
     rets = [n for n in walk_no_nested(fi.node) if isinstance(n, ast.Return) and n.value is not None]
@@ -840,6 +845,30 @@ def e(ctx):
 
 
 # ---------------------------------------------------------------------------
+@R.clause("C16.f", "urllib is taught only that CoAP URIs are hierarchical (uses_relative, uses_netloc); no CoAP scheme is registered for ;parameters, so a ';' stays part of its path segment")
+def f_urllib(ctx):
+    """Added after an independently written breaking change also registered the CoAP schemes in urllib.parse.uses_params:
+    urlparse() then splits `;params` off the last path segment, set_request_uri never looks at parsed.params, and
+    `/temp;unit=C` and `/temp` collapse."""
+    mod = ctx.prog.module("message")
+    touched = {}
+    for st in mod.tree.body:
+        for n in ast.walk(st):
+            if isinstance(n, ast.Attribute) and n.attr.startswith("uses_") and (chain(n) or "").startswith("urllib.parse."):
+                touched.setdefault(n.attr, st)
+            if isinstance(n, ast.Constant) and isinstance(n.value, str) and n.value.startswith("uses_") and any(isinstance(x, ast.Attribute) and (chain(x) or "") == "urllib.parse" or (isinstance(x, ast.Name) and x.id == "urllib") for x in ast.walk(st)):
+                touched.setdefault(n.value, st)
+    ctx.ob("the CoAP schemes are registered as hierarchical URIs", {"uses_relative", "uses_netloc"} <= set(touched), None, None, construct="message.py: urllib.parse registrations %s" % sorted(touched))
+    extra = sorted(set(touched) - {"uses_relative", "uses_netloc"})
+    fi0 = None
+    ctx.ob("no further urllib scheme table is modified (uses_params would split ';...' off the last segment)", not extra, None, None,
+           construct="message.py: urllib.parse.%s" % (extra[0] if extra else "uses_* (none besides relative/netloc)"))
+    sfi = ctx.prog.func("message.Message.set_request_uri")
+    reads_params = any(isinstance(n, ast.Attribute) and n.attr == "params" for n in ast.walk(sfi.node))
+    if extra and "uses_params" in extra:
+        ctx.ob("if parameters are split off they are put back", reads_params, sfi, sfi.node, construct="set_request_uri: parsed.params")
+
+
 F_M = "aiocoap/message.py"
 F_U = "aiocoap/util/__init__.py"
 F_Q = "aiocoap/util/uri.py"
@@ -883,3 +912,6 @@ R.seed("C16.e", F_M, "            hostinfo = hostportjoin(host, port)\n", "     
 R.seed("C16.e", F_M, "            host = str(ip)\n", "            host = str(host)\n", "literal not normalised through ipaddress")
 
 R.seed("C16.c", "aiocoap/message.py", "                    for x in parsed.path.split(\"/\")[1:]", "                    for x in parsed.path.lstrip(\"/\").split(\"/\")", "all leading slashes stripped: //a and /a collapse")
+
+R.seed("C16.f", "aiocoap/message.py", "urllib.parse.uses_netloc.extend(coap_schemes)\n", "urllib.parse.uses_netloc.extend(coap_schemes)\nurllib.parse.uses_params.extend(coap_schemes)\n", "';params' split off the last path segment and dropped")
+R.seed("C16.c", "aiocoap/util/uri.py", "def quote_factory(safe_characters):", "def quote_factory(safe_characters, _memo={}):", "memo shared between the path and the query quoter")
